@@ -437,13 +437,21 @@ def split_lanes(site):
         r = pev[j] if (pev is not None and j < len(pev) and names[j] is None) else _kw_rank(name, names[j])
         pe = a.shape[a.ndim - r:] if r else ()
         pb = a.shape[: a.ndim - r] if r else a.shape
-        # parameters broadcast against the trailing lane dims (sample_shape dims come first)
-        tgt = lead[len(lead) - len(pb):] if len(pb) <= len(lead) else pb
-        try:
-            ab = np.broadcast_to(a.reshape(pb + pe), lead + pe) if len(pb) <= len(lead) else a
-        except ValueError:
-            ab = None
-        if ab is None or ab.shape != lead + tuple(pe):
+        # Layout of a (vectorised) site: value = sample_shape dims + lane dims (outermost vmap
+        # first) + event. Parameters never carry the sample_shape dims; their lane dims are a
+        # prefix of the value's lane dims (a parameter derived from the enclosing lanes' state is
+        # mapped at every enclosing level; only the innermost level may be unmapped).
+        ss = tuple(site.get("sample_shape") or ())
+        rest = lead[len(ss):] if lead[: len(ss)] == ss else lead
+        nss = len(lead) - len(rest)
+        ab = None
+        if len(pb) <= len(rest):
+            try:
+                shaped = a.reshape((1,) * nss + tuple(pb) + (1,) * (len(rest) - len(pb)) + tuple(pe))
+                ab = np.broadcast_to(shaped, tuple(lead) + tuple(pe))
+            except ValueError:
+                ab = None
+        if ab is None or ab.shape != tuple(lead) + tuple(pe):
             pflat.append(None)
         else:
             pflat.append(ab.reshape((nl,) + tuple(pe)))
